@@ -10,6 +10,10 @@ from xknx.telegram import AddressFilter, Telegram, TelegramDirection
 from xknx.telegram.address import GroupAddress, GroupAddressType, InternalGroupAddress
 from xknx.telegram.apci import GroupValueRead, GroupValueResponse, GroupValueWrite
 
+import asyncio
+
+from xknx.core import ValueReader
+
 from vlib.core_harness import (
     ProbeDevice,
     bounded,
@@ -28,14 +32,18 @@ TECHNIQUE = (
 LEVEL_TEXT = (
     "Per case 3-9 registrations (match-all / address list / address filters / both, outgoing flag, raising or not, one optionally through "
     "the XKNX constructor) over a pool of group and internal addresses in each of the three notations, 20-120 incoming/outgoing telegrams "
-    "processed by the real queue in bursts, registrations added/removed between bursts. Exploration: registrations and streams are sampled."
+    "processed by the real queue in bursts, registrations added/removed between bursts; in a third of the bursts xknx's own registrants "
+    "take part: 1-3 pending ValueReader.read() calls (same or different addresses, answered by a response/write inside the burst or timing "
+    "out) with a user callback registered after them. Exploration: registrations and streams are sampled."
 )
 LEVEL_NOTE = (
     "Trusted: the reference matcher (ranges per level, open ends, reversed ranges, '*', 'i-' globs with * and ?), kept inside the documented "
     "grammar and the matching notation (C02's corner cases are C02's). Judged: per processed telegram each registered matching callback is "
     "called exactly once, non-matching / outgoing-not-requested never; a raising callback changes nothing for later callbacks or for "
     "Device.process. Call order is recorded, not judged. Empty lists (address_filters=[] / group_addresses=[]) and callbacks that "
-    "unregister a callback from inside a callback are exercised and recorded, not judged (statement silent)."
+    "unregister a callback from inside a USER callback are exercised and recorded, not judged (statement silent); what xknx's own "
+    "ValueReader callbacks do to the list is not excused: the user callbacks are judged for every processed telegram, including the "
+    "GroupValueReads the readers queue."
 )
 SHARDS = {"quick": 1, "thorough": 16}
 TIMEOUT = {"quick": 300, "thorough": 3000}
@@ -209,7 +217,23 @@ def gen_case(rng: random.Random) -> dict:
             change = ("unregister", rng.randrange(64))
         elif k < 0.5:
             change = ("register", gen_cb(False))
-        bursts.append({"telegrams": tgs, "change": change})
+        readers = None
+        if rng.random() < 0.35:
+            # xknx's own registrants: pending ValueReader.read() calls (sync / read_state / read tools), some answered, some not
+            raddrs = [rng.choice(pool) for _ in range(rng.choice((1, 1, 2, 3)))]
+            if rng.random() < 0.4:
+                raddrs = [raddrs[0]] * len(raddrs)  # concurrent readers on one address
+            late = None
+            if rng.random() < 0.8:
+                late = gen_cb(False)
+                if rng.random() < 0.5:
+                    late.update(filters=None, addrs=None, judged=True)
+            readers = {"addrs": raddrs, "timeout": rng.choice((0.5, 2.0)), "late_register": late,
+                       "answers": [rng.choice(("response", "write", None)) for _ in raddrs]}
+            for a, ans in zip(raddrs, readers["answers"]):
+                if ans:
+                    tgs.insert(rng.randrange(len(tgs) + 1), (False, a, ans))
+        bursts.append({"telegrams": tgs, "change": change, "readers": readers})
     selfunreg = rng.random() < 0.15
     return {"notation": notation, "pool": pool, "cbs": cbs, "devices": devices, "bursts": bursts, "selfunreg": selfunreg}
 
@@ -286,12 +310,40 @@ def run_one(ctx, case_seed: str) -> None:
             xknx.devices.async_add(d)
             devs.setdefault(a, []).append(d)
         state["devs"] = devs
+        class NotingQueue(asyncio.Queue):
+            """xknx.telegrams (public slot): gives the GroupValueReads queued by ValueReaders a number, so that the user callbacks
+            are judged for them like for any other processed telegram."""
+
+            def put_nowait(self, item) -> None:  # type: ignore[override]
+                if item is not None and isinstance(item.payload, GroupValueRead) and id(item.payload) not in keyof:
+                    seqbox[0] += 1
+                    keyof[id(item.payload)] = seqbox[0]
+                    keep.append(item)
+                    da = item.destination_address
+                    tg_info[seqbox[0]] = (True, da.raw if isinstance(da, InternalGroupAddress) else str(da.raw), sorted(handles))
+                    ctx.count("reads_queued_by_value_readers")
+                super().put_nowait(item)
+
+        seqbox = [0]
+        xknx.telegrams = NotingQueue()
         await xknx.start()
-        seq = 0
+        pending_reads: list = []
         for burst in case["bursts"]:
+            rd = burst.get("readers")
+            if rd:
+                for a in rd["addrs"]:
+                    pending_reads.append(asyncio.ensure_future(ValueReader(xknx, _addr(a), timeout_in_seconds=rd["timeout"]).read()))
+                    ctx.count("value_readers_started")
+                for _ in range(3):
+                    await asyncio.sleep(0)  # the readers register their callbacks and queue their reads
+                ok, _ = await bounded(xknx.join(), 1000.0)
+                if rd["late_register"] is not None:
+                    register(rd["late_register"])  # a user callback registered after xknx's own
+                    ctx.count("user_callbacks_registered_after_a_pending_reader")
             active = sorted(handles)
             for outgoing, a, pk in burst["telegrams"]:
-                seq += 1
+                seqbox[0] += 1
+                seq = seqbox[0]
                 p = _payload(pk, seq)
                 keyof[id(p)] = seq
                 t = Telegram(destination_address=_addr(a), payload=p)
@@ -305,6 +357,12 @@ def run_one(ctx, case_seed: str) -> None:
             if not ok:
                 state["stalled"] = True
                 return
+            if rd:
+                await asyncio.sleep(rd["timeout"] + 0.1)  # unanswered readers time out and unregister
+                for fut in pending_reads:
+                    if fut.done() and not fut.cancelled() and fut.exception() is None:
+                        ctx.count("value_readers_answered" if fut.result() is not None else "value_readers_timed_out")
+                pending_reads = [f for f in pending_reads if not f.done()]
             ch = burst["change"]
             if ch is not None:
                 if ch[0] == "unregister" and handles:
@@ -447,7 +505,8 @@ def run(ctx):
     ctx.require("called_once_as_expected", "not_called_as_expected", "expect_all", "expect_filter", "expect_internal-filter",
                 "expect_address", "expect_outgoing-not-requested", "expect_no-match", "raising_callback_called",
                 "called_after_a_raising_callback", "device_processed_after_raising_callback", "unregistered_between_bursts",
-                "registered_between_bursts")
+                "registered_between_bursts", "value_readers_started", "value_readers_answered", "value_readers_timed_out",
+                "user_callbacks_registered_after_a_pending_reader", "reads_queued_by_value_readers")
     selftest(ctx)
     n = ctx.scale(1500, 96000)
     for i in range(n):
